@@ -635,9 +635,31 @@ def positive(gset):
     return out
 
 
-def exact_selection(chk, rule, what, f, cfg, node, head, want, text=None):
-    """Obligation: inside the loop, `node` is selected exactly by the outcomes in `want` (set of (test text, bool))."""
+def early_exits(cfg, head):
+    """Edges that leave the body of the `for` loop headed by `head` other than through exhaustion of the iterator: (from, to) node
+    pairs of break / return (exceptional edges are not counted)."""
+    inside = set()
+    for st in head.ast.body:
+        inside.update(id(x) for x in ast.walk(st))
+    body = {n.id for n in cfg.nodes if n.ast is not None and id(n.ast) in inside}
+    live = cfg.live(True)
+    out = []
+    for b in body & live:
+        for s in cfg.succs(b, True):
+            if s not in body and s != head.id:
+                out.append((b, s))
+    return out
+
+
+def exact_selection(chk, rule, what, f, cfg, node, head, want, text=None, every=True):
+    """Obligation: inside the loop, `node` is selected exactly by the outcomes in `want` (set of (test text, bool)).  With `every`
+    (the rule says "every item with P"), the loop is also left only when the iterator is exhausted."""
     from sa.cfg import canon_fact
+    if every and head.kind == "loop":
+        ee = early_exits(cfg, head)
+        chk.ob(rule, what + " (the loop visits every item: it is left only by exhaustion)", not ee, f.where(head.ast),
+               detail="left early at %s" % ", ".join(cfg.nodes[a].text(40) + " -> " + cfg.nodes[b].text(30) for a, b in ee[:3]) if ee else None,
+               construct=f.ident, text="loop runs to exhaustion: " + (text or node.text(50)))
     got = positive(inloop_guards(cfg, node.id, head.id))
     want = {canon_fact(k, v) for k, v in want}
     chk.ob(rule, what, got == positive(set(want)), f.where(node.ast), detail="selected by %s, expected exactly %s" % (sorted(got), sorted(want)),
